@@ -536,6 +536,9 @@ func init() {
 				g.emit(c24Case("regexTooLong", "counter a\n/"+a6+"/ + /"+b6+"/ {\n  a++\n}\n")...)
 				g.emit(c24Case("regexTooLong", "counter a\nconst P /"+a6+"/\n/^x/ + P + /"+b6+"/ {\n  a++\n}\n")...)
 				g.emit(c24Case("regexTooLong", "counter a\n/^(?P<w>\\S+)/ {\n  $w =~ \""+a6+"\" + \""+b6+"\" {\n    a++\n  }\n}\n")...)
+				// a pattern constant over the limit is reported where it is defined
+				g.emit(c24Case("regexTooLong", "counter a\nconst L /"+strings.Repeat("a", 1025)+"/\nL {\n  a++\n}\n")...)
+				g.emit(c24Case("regexTooLong", "counter a\nconst P /"+a6+"/\nconst Q // + P + P\n/x/ + Q {\n  a++\n}\n")...)
 				g.emit(c24Case("-", "counter a\n/"+strings.Repeat("a", 500)+"/ + /"+strings.Repeat("b", 500)+"/ {\n  a++\n}\n")...)
 			}
 			c, _ := compiler.New()
